@@ -322,6 +322,12 @@ def corpus():
         {"op": "antitarget", "tag": "corpus-guess-nested",
          "in": {"tg": [["chr1", 200000, 290000, "a"], ["chr1", 210000, 220000, "b"], ["chr2", 300000, 300100, "c"]],
                 "acc": None, "avg": "10000", "avg_f": 10000, "min": None, "acc_gene": True}},
+        # round 5c -- no access table, chromosomes in an order that is neither lexical nor by size of the end: each
+        # guessed region ends at the last bait of ITS OWN chromosome (Props/C12SrcGuess.guessed_region_is_its_own)
+        {"op": "antitarget", "tag": "corpus-guess-own-chrom",
+         "in": {"tg": [["chr2", 200000, 200100, "a"], ["chr2", 390000, 390100, "b"], ["chr10", 160000, 160100, "c"],
+                       ["chr10", 250000, 250100, "d"], ["chr1", 300000, 300100, "e"], ["chr1", 520000, 520100, "f"]],
+                "acc": None, "avg": "20000", "avg_f": 20000, "min": None, "acc_gene": False}},
         # excluded point avg = 0 (run, not compared)
         {"op": "antitarget", "tag": "corpus-avg0", "in": {"tg": [["chr1", 2000, 2100, "a"]],
                                                           "acc": [["chr1", 0, 9000, "x"]],
